@@ -14,6 +14,7 @@ Local Open Scope N_scope.
    keeps i o      : o is not a set on index i, not a resize to i or less, not a clear
    bytes_pal p    : every channel is a byte (always so in Rust: the fields are u8)
    wf_meta f p    : title/author/description (and colour names for Ice) contain no line feed; True for Hex and Pal
+                    (its negation is the known class KnownC16_1, see export_import_outside_known)
    colours p      : map crgb (pcolors p) *)
 
 (* ---- (a) index laws ---------------------------------------------------------------------------- *)
@@ -116,6 +117,18 @@ Theorem export_import_txt : forall p, bytes_pal p ->
   no_nl (ptitle p) -> no_nl (pauthor p) -> no_nl (pdescription p) ->
   load_txt (export_txt p) = Some (map crgb (pcolors p)).
 Proof. exact export_import_txt_proof. Qed.
+
+(* The same statement with the known class spelled out: outside KnownC16_1 (a line feed in title / author /
+   description / colour name of a format that writes them) every palette comes back. *)
+Theorem export_import_outside_known : forall f p, bytes_pal p -> ~ KnownC16_1 f p ->
+  load f (export f p) = Some (colours p).
+Proof. exact export_import_outside_known_proof. Qed.
+
+(* … and inside the class the property does fail: title "x\n1 2 3 y" makes GPL read a colour out of the title *)
+Theorem known_1_witness :
+  bytes_pal known_1_pal /\ KnownC16_1 Gpl known_1_pal /\
+  load Gpl (export Gpl known_1_pal) = Some [(1, 2, 3); (9, 9, 9)] /\ colours known_1_pal = [(9, 9, 9)].
+Proof. exact known_1_witness_proof. Qed.
 
 (* The defect fixed in /repo (GPL_COLOR_REGEX ended in \s+(.+)): with that regex the two colours of a palette
    with an empty description do not come back. *)
